@@ -249,6 +249,10 @@ def r1_escape_parse(ctx):
                 kind = 'operand of the guard raise'
             elif r[0] == 'repo' and len(r[1]) == 1 and not _default_summaries(ctx).escapes(r[1][0]):
                 kind = 'repository helper that cannot raise (empty escape summary)'
+            elif r[0] == 'class' and not c.args and not c.keywords:
+                init = ctx.prog.find_method(r[1], '__init__')
+                if init is None or not _default_summaries(ctx).escapes(init):
+                    kind = 'constructor of a repository class whose __init__ cannot raise'
             rep.ob('C14.R1a', ctx.loc(f, c), ctx.src(c), kind is not None,
                    'outside the try: %s' % kind if kind else 'a call that may raise on some text lies outside the wrapping try: its exception leaves parse() unconverted', anchor=PARSE)
     rep.floor('C14.R1', 'calls outside the wrapping try', n_out, 3)
